@@ -144,3 +144,21 @@ class Grower(Process):
                 dict(self.compartment(self.parameters['proc_par']), key=key + 'a'),
                 dict(self.compartment(self.parameters['proc_par']), key=key + 'b')]}}}
         return {}
+
+
+class Mover(Process):
+    """moves a compartment from colony A to colony B at a scripted tick"""
+    defaults = {'at': 2, 'key': 'c0', 'time_step': 1.0}
+
+    def __init__(self, parameters=None):
+        super().__init__(parameters)
+        self.k = 0
+
+    def ports_schema(self):
+        return {'A': {'*': {'own': {'elapsed': {'_default': 0.0}}}}, 'B': {'*': {'own': {'elapsed': {'_default': 0.0}}}}}
+
+    def next_update(self, timestep, states):
+        self.k += 1
+        if self.k == self.parameters['at']:
+            return {'A': {'_move': [{'source': self.parameters['key'], 'target': 'B'}]}}
+        return {}
